@@ -84,6 +84,8 @@ func main() {
 	sim := flag.String("sim", "/verif/sim", "directory holding verifsim sources, overlay files and export files")
 	variant := flag.String("variant", "default", "constant variant: default|small|tiny")
 	flag.Parse()
+	// go/packages resolves the "go" command through this process's PATH
+	os.Setenv("PATH", "/opt/veriftools/go1.26.8/bin:"+os.Getenv("PATH"))
 	if *out == "" {
 		fmt.Fprintln(os.Stderr, "instrument: -out required")
 		os.Exit(2)
@@ -100,7 +102,7 @@ func run(repo, out, sim, variant string) error {
 		Mode: packages.NeedName | packages.NeedFiles | packages.NeedCompiledGoFiles | packages.NeedSyntax |
 			packages.NeedTypes | packages.NeedTypesInfo | packages.NeedImports,
 		Dir: repo,
-		Env: append(os.Environ(), "GOFLAGS=-mod=mod", "GOPROXY=off", "GOSUMDB=off", "GOTOOLCHAIN=local"),
+		Env: append(os.Environ(), "GOFLAGS=-mod=mod", "GOPROXY=off", "GOSUMDB=off", "GOTOOLCHAIN=local", "PATH=/opt/veriftools/go1.26.8/bin:"+os.Getenv("PATH")),
 	}
 	pkgs, err := packages.Load(cfg, patterns...)
 	if err != nil {
@@ -249,9 +251,8 @@ func (r *rewriter) isChan(e ast.Expr) bool {
 	return ok
 }
 
-var constVariants = map[string]map[string]map[string]string{
-	// variant -> "pkgpath.Name" -> literal ; filled in variants.go
-}
+// variant -> package path -> constant name -> literal (filled in variants.go)
+var constVariants = map[string]map[string]map[string]string{}
 
 func rewriteFile(p *packages.Package, file *ast.File, name, repo string, stmtLvl bool, variant string) (bool, error) {
 	r := &rewriter{p: p, fset: p.Fset, info: p.TypesInfo, repo: repo, skip: map[ast.Node]bool{},
